@@ -53,26 +53,27 @@ Lemma view_ext o1 o2 f : get K_library_folders o1 = get K_library_folders o2 -> 
 Proof. intros H. unfold view, inview, folders. rewrite H. reflexivity. Qed.
 
 (* ---------- sources: how the tree may differ from the snapshot taken at the save ---------- *)
-(* `ev cm snap f`: f is snap with some files rewritten in place and some files appended, every
-   rewritten or appended file having an mtime strictly later than cm *)
-Inductive ev (cm : Z) : fs -> fs -> Prop :=
-| ev_nil tail : Forall (fun e => (fst (snd e) > cm)%Z) tail -> ev cm [] tail
-| ev_same x s f : ev cm s f -> ev cm (x :: s) (x :: f)
-| ev_chg p v w s f : (fst w > cm)%Z -> ev cm s f -> ev cm ((p, v) :: s) ((p, w) :: f).
+(* `ev g cm snap f`: f is snap with some files rewritten in place and some files appended, every
+   rewritten or appended file being "newer than cm" in the sense of the comparison the code uses
+   (strictly later under `>`, not earlier under `>=`) *)
+Inductive ev (g : cfg) (cm : Z) : fs -> fs -> Prop :=
+| ev_nil tail : Forall (fun e => newer g (fst (snd e)) cm = true) tail -> ev g cm [] tail
+| ev_same x s f : ev g cm s f -> ev g cm (x :: s) (x :: f)
+| ev_chg p v w s f : newer g (fst w) cm = true -> ev g cm s f -> ev g cm ((p, v) :: s) ((p, w) :: f).
 
-Lemma ev_refl cm s : ev cm s s.
+Lemma ev_refl g cm s : ev g cm s s.
 Proof. induction s; [apply ev_nil; constructor | apply ev_same; assumption]. Qed.
 
-Lemma Forall_upd cm p v t :
-  (fst v > cm)%Z -> Forall (fun e : path * (Z * nat) => (fst (snd e) > cm)%Z) t ->
-  Forall (fun e : path * (Z * nat) => (fst (snd e) > cm)%Z) (upd p v t).
+Lemma Forall_upd g cm p v t :
+  newer g (fst v) cm = true -> Forall (fun e : path * (Z * nat) => newer g (fst (snd e)) cm = true) t ->
+  Forall (fun e : path * (Z * nat) => newer g (fst (snd e)) cm = true) (upd p v t).
 Proof.
   intros Hv H. induction H as [|[q w] t Hx Ht IH]; simpl.
   - constructor; [exact Hv | constructor].
   - destruct (path_eqb p q); constructor; first [assumption | exact Hv].
 Qed.
 
-Lemma ev_upd cm s f p v : (fst v > cm)%Z -> ev cm s f -> ev cm s (upd p v f).
+Lemma ev_upd g cm s f p v : newer g (fst v) cm = true -> ev g cm s f -> ev g cm s (upd p v f).
 Proof.
   intros Hv H. induction H as [tail Ht | [q w] s f H IH | q u w s f Hw H IH]; simpl.
   - apply ev_nil. apply Forall_upd; assumption.
@@ -83,16 +84,70 @@ Qed.
 Lemma newer_gt g m cm : (m > cm)%Z -> newer g m cm = true.
 Proof. intros H. unfold newer. destruct (strict g); [apply Z.gtb_lt | apply Z.geb_le]; lia. Qed.
 
-Lemma ev_view g o cm s f : ev cm s f -> mtime_ok g o cm f = true -> view o s = view o f.
+Lemma ev_view g o cm s f : ev g cm s f -> mtime_ok g o cm f = true -> view o s = view o f.
 Proof.
   unfold mtime_ok, view. intros H. induction H as [tail Ht | [q w] s f H IH | q u w s f Hw H IH]; simpl; intros M.
   - induction Ht as [|[q w] t Hx Ht IHt]; simpl in *; [reflexivity|].
-    apply andb_true_iff in M as [M1 M2]. rewrite (newer_gt g _ _ Hx) in M1. simpl in M1.
+    apply andb_true_iff in M as [M1 M2]. rewrite Hx in M1. simpl in M1.
     rewrite orb_false_r in M1. apply negb_true_iff in M1. rewrite M1. apply IHt. exact M2.
   - apply andb_true_iff in M as [M1 M2]. specialize (IH M2).
     destruct (inview o q); simpl; [f_equal|]; exact IH.
-  - apply andb_true_iff in M as [M1 M2]. rewrite (newer_gt g _ _ Hw) in M1. simpl in M1.
+  - apply andb_true_iff in M as [M1 M2]. simpl in Hw. rewrite Hw in M1. simpl in M1.
     rewrite orb_false_r in M1. apply negb_true_iff in M1. rewrite M1. apply IH. exact M2.
+Qed.
+
+(* ---------- restriction of a tree to the folders in view (library_folders = L) ---------- *)
+Definition inL (L : val) (p : path) : bool := existsb (Nat.eqb (fst p)) (0 :: L).
+Definition vf (L : val) (f : fs) : fs := filter (fun e => inL L (fst e)) f.
+
+Lemma path_eqb_inL L p q : path_eqb p q = true -> inL L q = inL L p.
+Proof.
+  unfold path_eqb, inL. intros H. apply andb_true_iff in H as [H _]. apply Nat.eqb_eq in H. rewrite H. reflexivity.
+Qed.
+
+Lemma vf_upd_in L p v f : inL L p = true -> vf L (upd p v f) = upd p v (vf L f).
+Proof.
+  intros Hp. induction f as [|[q w] f IH]; simpl.
+  - rewrite Hp. reflexivity.
+  - destruct (path_eqb p q) eqn:E; simpl.
+    + rewrite (path_eqb_inL L p q E), Hp. simpl. rewrite E. reflexivity.
+    + destruct (inL L q); simpl; [rewrite E, IH; reflexivity | exact IH].
+Qed.
+
+Lemma vf_upd_out L p v f : inL L p = false -> vf L (upd p v f) = vf L f.
+Proof.
+  intros Hp. induction f as [|[q w] f IH]; simpl.
+  - rewrite Hp. reflexivity.
+  - destruct (path_eqb p q) eqn:E; simpl.
+    + rewrite (path_eqb_inL L p q E), Hp. reflexivity.
+    + destruct (inL L q); simpl; [rewrite IH; reflexivity | exact IH].
+Qed.
+
+Lemma vf_del_out L p f : inL L p = false -> vf L (del p f) = vf L f.
+Proof.
+  intros Hp. induction f as [|[q w] f IH]; simpl; [reflexivity|].
+  destruct (path_eqb p q) eqn:E; simpl.
+  - rewrite (path_eqb_inL L p q E), Hp. exact IH.
+  - destruct (inL L q); simpl; [rewrite IH; reflexivity | exact IH].
+Qed.
+
+Lemma vf_ren_out L p q f : inL L p = false -> inL L q = false -> vf L (ren p q f) = vf L f.
+Proof.
+  intros Hp Hq. unfold ren. destruct (lookup p f); [|reflexivity].
+  rewrite vf_upd_out by exact Hq. apply vf_del_out. exact Hp.
+Qed.
+
+Lemma view_vf o f : view o (vf (get K_library_folders o) f) = view o f.
+Proof.
+  unfold view, vf. f_equal. induction f as [|e f IH]; simpl; [reflexivity|].
+  change (inL (get K_library_folders o) (fst e)) with (inview o (fst e)).
+  destruct (inview o (fst e)) eqn:E; simpl; [rewrite E; f_equal|]; exact IH.
+Qed.
+
+Lemma mtime_ok_vf g o cm L f : mtime_ok g o cm f = true -> mtime_ok g o cm (vf L f) = true.
+Proof.
+  unfold mtime_ok, vf. induction f as [|e f IH]; simpl; [reflexivity|]. intros H.
+  apply andb_true_iff in H as [H1 H2]. destruct (inL L (fst e)); simpl; [rewrite H1|]; auto.
 Qed.
 
 (* ---------- the invariant ---------- *)
@@ -118,92 +173,168 @@ Proof. repeat split. Qed.
 Definition out_ok (fails : cres -> bool) (s : state) (r : out) : Prop :=
   match r with
   | Failed => fails (ideal s) = true              (* compiling the current sources raises *)
-  | Served _ m => res_equiv m (ideal s)
+  | Served _ m built =>
+      res_equiv m (ideal s) /\
+      match built with Some n => n = osn s | None => True end   (* shared libraries are for this platform *)
   end.
 
-Definition Inv (L : val) (s : state) : Prop :=
+Definition Inv (g : cfg) (L : val) (s : state) : Prop :=
   get K_library_folders (copts s) = L /\ flag K_mtime_check (copts s) = true /\
   match cch s with
   | None => True
   | Some c =>
       get K_library_folders (c_opts c) = L /\
-      ev (c_mtime c) (c_snap c) (files s) /\
-      c_model c = (view (c_opts c) (c_snap c), c_opts c, c_version c)
+      ev g (c_mtime c) (vf L (c_snap c)) (vf L (files s)) /\
+      c_model c = (view (c_opts c) (c_snap c), c_opts c, c_version c) /\
+      c_libs c = flag K_codegen (c_opts c) /\
+      (c_libs c = true -> libs s = Some (c_model c, c_os c))
   end.
 
-(* the property's quantifier: every write gets an mtime strictly later than the cache file's;
-   carving hypothesis: library_folders stays L; opt-out excluded: mtime_check stays on *)
-Definition legal_op (L : option val) (s : state) (a : op) : Prop :=
+(* The property's quantifier.  A write is "newer than the cache file" in the sense of the coded
+   comparison (`newer`: strictly later under >, not earlier under >=; see legal_gt below for the
+   property's own "strictly later").  Carving hypothesis: library_folders stays L.  Opt-out
+   excluded: mtime_check stays on.  Outside the property's letter: deleting or renaming a source
+   in the model folder or a library folder in use (elsewhere it is allowed). *)
+Definition legal_op (g : cfg) (L : option val) (s : state) (a : op) : Prop :=
   match a with
-  | Edit _ m _ | Add _ m _ => match cch s with Some c => (m > c_mtime c)%Z | None => True end
+  | Edit _ m _ | Add _ m _ => match cch s with Some c => newer g m (c_mtime c) = true | None => True end
   | SetOptions o =>
       flag K_mtime_check o = true /\
       match L with Some l => get K_library_folders o = l | None => True end
+  | Delete p => match L with Some l => inL l p = false | None => False end
+  | Rename p q => match L with Some l => inL l p = false /\ inL l q = false | None => False end
   | _ => True
   end.
 
 Fixpoint legal (g : cfg) (fails : cres -> bool) (L : option val) (s : state) (ops : list op) : Prop :=
   match ops with
   | [] => True
-  | a :: rest => legal_op L s a /\ legal g fails L (fst (step g fails s a)) rest
+  | a :: rest => legal_op g L s a /\ legal g fails L (fst (step g fails s a)) rest
   end.
 
-Lemma step_inv g fails L s a : Inv L s -> legal_op (Some L) s a -> Inv L (fst (step g fails s a)).
+(* the same with the property's literal grant: every write strictly later than the cache file *)
+Definition legal_op_gt (L : option val) (s : state) (a : op) : Prop :=
+  match a with
+  | Edit _ m _ | Add _ m _ => match cch s with Some c => (m > c_mtime c)%Z | None => True end
+  | _ => legal_op (Cfg true [] true) L s a
+  end.
+
+Fixpoint legal_gt (g : cfg) (fails : cres -> bool) (L : option val) (s : state) (ops : list op) : Prop :=
+  match ops with
+  | [] => True
+  | a :: rest => legal_op_gt L s a /\ legal_gt g fails L (fst (step g fails s a)) rest
+  end.
+
+Lemma legal_gt_legal g fails L s ops : legal_gt g fails L s ops -> legal g fails L s ops.
 Proof.
-  intros (I1 & I2 & I3) Hl. destruct a as [p m c | p m c | o | v | now]; simpl in *.
-  1,2: (split; [exact I1 | split; [exact I2|]]; destruct (cch s) as [ch|]; [|exact I];
-        destruct I3 as (J1 & J2 & J3); repeat split; try assumption; apply ev_upd; assumption).
+  revert s. induction ops as [|a ops IH]; intros s H; simpl in *; [exact I|].
+  destruct H as [H1 H2]. split; [|apply IH; exact H2].
+  destruct a; simpl in *; try exact H1; (destruct (cch s); [apply newer_gt; exact H1 | exact I]).
+Qed.
+
+Lemma inv_files g L s f :
+  Inv g L s -> vf L f = vf L (files s) -> Inv g L (with_files s f).
+Proof.
+  intros (I1 & I2 & I3) E. split; [exact I1 | split; [exact I2|]]. simpl.
+  destruct (cch s) as [c|]; [|exact I]. rewrite E. exact I3.
+Qed.
+
+Lemma transfer_inv g fails L s now : Inv g L s -> Inv g L (fst (transfer g fails s now)).
+Proof.
+  intros I0. pose proof I0 as (I1 & I2 & I3).
+  set (o := effective (copts s)).
+  assert (Lo : get K_library_folders o = L) by (unfold o; rewrite effective_get by discriminate; exact I1).
+  assert (NewL : Inv g L (State (files s) (copts s) (ver s) (osn s) (Some (compile s o, osn s))
+                    (Some (Cache now (ver s) o (osn s) true (compile s o) (files s)))) \/ flag K_codegen o = false).
+  { destruct (flag K_codegen o) eqn:Fc; [left | right; reflexivity].
+    split; [exact I1 | split; [exact I2|]]. simpl. repeat split; auto using ev_refl. }
+  assert (NewP : Inv g L (State (files s) (copts s) (ver s) (osn s) (libs s)
+                    (Some (Cache now (ver s) o (osn s) false (compile s o) (files s)))) \/ flag K_codegen o = true).
+  { destruct (flag K_codegen o) eqn:Fc; [right; reflexivity | left].
+    split; [exact I1 | split; [exact I2|]]. simpl. repeat split; auto using ev_refl. discriminate. }
+  assert (Rec : Inv g L (fst (if fails (compile s o) then (s, Failed)
+            else if flag K_codegen o
+                 then (State (files s) (copts s) (ver s) (osn s) (Some (compile s o, osn s))
+                             (Some (Cache now (ver s) o (osn s) true (compile s o) (files s))), Served false (compile s o) None)
+                 else (State (files s) (copts s) (ver s) (osn s) (libs s)
+                             (Some (Cache now (ver s) o (osn s) false (compile s o) (files s))), Served false (compile s o) None)))).
+  { destruct (fails (compile s o)); [exact I0|].
+    destruct (flag K_codegen o) eqn:Fc; simpl.
+    - destruct NewL as [N|N]; [exact N | congruence].
+    - destruct NewP as [N|N]; [exact N | congruence]. }
+  unfold transfer. fold o.
+  destruct (flag K_cache o || flag K_codegen o); [|exact I0].
+  destruct (cch s) as [ch|] eqn:Ec; [|exact Rec].
+  destruct (load_ok g s o ch); [exact I0 | exact Rec].
+Qed.
+
+Lemma step_inv g fails L s a : Inv g L s -> legal_op g (Some L) s a -> Inv g L (fst (step g fails s a)).
+Proof.
+  intros I0 Hl. pose proof I0 as (I1 & I2 & I3).
+  destruct a as [p m c | p m c | o | v | now | p | p q | n]; simpl in *.
+  1,2: (destruct (inL L p) eqn:Ep;
+        [ split; [exact I1 | split; [exact I2|]]; simpl; destruct (cch s) as [ch|]; [|exact I];
+          destruct I3 as (J1 & J2 & J3 & J4 & J5); repeat split; try assumption;
+          rewrite vf_upd_in by exact Ep; apply ev_upd; assumption
+        | apply inv_files; [exact I0 | apply vf_upd_out; exact Ep] ]).
   - destruct Hl as [H1 H2]. repeat split; assumption.
   - repeat split; assumption.
-  - assert (New : Inv L (State (files s) (copts s) (ver s)
-             (Some (Cache now (ver s) (effective (copts s)) (compile s (effective (copts s))) (files s))))).
-    { split; [exact I1 | split; [exact I2|]]. simpl. split; [|split].
-      - rewrite effective_get by discriminate. exact I1.
-      - apply ev_refl.
-      - reflexivity. }
-    assert (Old : Inv L s) by (repeat split; assumption).
-    unfold transfer.
-    destruct (flag K_cache (effective (copts s)) || flag K_codegen (effective (copts s))).
-    + destruct (cch s) as [ch|] eqn:Ec.
-      * destruct (load_ok g s (effective (copts s)) ch); simpl; [exact Old|].
-        destruct (fails _); simpl; [exact Old | exact New].
-      * destruct (fails _); simpl; [exact Old | exact New].
-    + simpl. exact Old.
+  - pose proof (transfer_inv g fails L s now I0) as T.
+    destruct (transfer g fails s now) as [s2 r2]. exact T.
+  - apply inv_files; [exact I0 | apply vf_del_out; exact Hl].
+  - destruct Hl as [Hp Hq]. apply inv_files; [exact I0 | apply vf_ren_out; assumption].
+  - split; [exact I1 | split; [exact I2|]]. simpl. exact I3.
 Qed.
 
 Lemma transfer_out g fails L s now :
-  cfg_ok g -> Inv L s -> out_ok fails s (snd (transfer g fails s now)).
+  cfg_ok g -> Inv g L s -> out_ok fails s (snd (transfer g fails s now)).
 Proof.
   intros [Gv Ge] (I1 & I2 & I3). unfold transfer.
   set (o := effective (copts s)).
-  assert (Fresh : out_ok fails s (if fails (compile s o) then Failed else Served false (compile s o))).
-  { destruct (fails (compile s o)) eqn:F; simpl; [exact F | apply res_equiv_refl]. }
+  assert (Fresh : out_ok fails s (if fails (compile s o) then Failed else Served false (compile s o) None)).
+  { destruct (fails (compile s o)) eqn:F; simpl; [exact F | split; [apply res_equiv_refl | exact I]]. }
   assert (Fresh' : out_ok fails s (snd (if fails (compile s o) then (s, Failed)
-            else (State (files s) (copts s) (ver s) (Some (Cache now (ver s) o (compile s o) (files s))),
-                  Served false (compile s o))))).
-  { destruct (fails (compile s o)) eqn:F; simpl; [exact F | apply res_equiv_refl]. }
+              else if flag K_codegen o
+                   then (State (files s) (copts s) (ver s) (osn s) (Some (compile s o, osn s))
+                               (Some (Cache now (ver s) o (osn s) true (compile s o) (files s))), Served false (compile s o) None)
+                   else (State (files s) (copts s) (ver s) (osn s) (libs s)
+                               (Some (Cache now (ver s) o (osn s) false (compile s o) (files s))), Served false (compile s o) None)))).
+  { destruct (fails (compile s o)) eqn:F; simpl; [exact F|].
+    destruct (flag K_codegen o); simpl; (split; [apply res_equiv_refl | exact I]). }
   destruct (flag K_cache o || flag K_codegen o); [|exact Fresh].
   destruct (cch s) as [ch|]; [|exact Fresh'].
   destruct (load_ok g s o ch) eqn:LK; [|exact Fresh'].
-  simpl. destruct I3 as (J1 & J2 & J3).
-  unfold load_ok in LK. apply andb_true_iff in LK as [LK LK3]. apply andb_true_iff in LK as [LK1 LK2].
+  simpl. destruct I3 as (J1 & J2 & J3 & J4 & J5).
+  unfold load_ok in LK. apply andb_true_iff in LK as [LK LK4].
+  apply andb_true_iff in LK as [LK LK3]. apply andb_true_iff in LK as [LK1 LK2].
   assert (Fm : flag K_mtime_check o = true) by (unfold o; rewrite effective_flag by discriminate; exact I2).
   rewrite Fm in LK1. simpl in LK1.
   rewrite Gv in LK2. simpl in LK2. apply Nat.eqb_eq in LK2.
   apply opts_eqb_eq in LK3.
   assert (Lo : get K_library_folders o = L) by (unfold o; rewrite effective_get by discriminate; exact I1).
-  rewrite J3. unfold ideal, compile. fold o. repeat split; simpl.
-  - rewrite (view_ext (c_opts ch) o) by congruence. eapply ev_view; eassumption.
-  - exact LK2.
-  - intros k Nk. destruct (existsb (Nat.eqb k) (excl g)) eqn:Ex.
-    + apply existsb_exists in Ex as (k' & Hin & Hk). apply Nat.eqb_eq in Hk. subst k'.
+  assert (Agree : forall k, k <> K_verbose -> get k (c_opts ch) = get k o).
+  { intros k Nk. destruct (existsb (Nat.eqb k) (excl g)) eqn:Ex.
+    - apply existsb_exists in Ex as (k' & Hin & Hk). apply Nat.eqb_eq in Hk. subst k'.
       destruct (Ge k Hin) as [E|E]; [subst k; congruence | contradiction].
-    + rewrite <- (get_strip g k (c_opts ch) Ex), <- (get_strip g k o Ex). rewrite LK3. reflexivity.
+    - rewrite <- (get_strip g k (c_opts ch) Ex), <- (get_strip g k o Ex). rewrite LK3. reflexivity. }
+  assert (Eq : res_equiv (c_model ch) (ideal s)).
+  { rewrite J3. unfold ideal, compile. fold o. repeat split; simpl.
+    - rewrite (view_ext (c_opts ch) o) by congruence.
+      rewrite <- (view_vf o (c_snap ch)), <- (view_vf o (files s)). rewrite Lo.
+      eapply ev_view; [eassumption | apply mtime_ok_vf; exact LK1].
+    - exact LK2.
+    - exact Agree. }
+  unfold loaded. destruct (c_libs ch) eqn:Cl.
+  - rewrite (J5 eq_refl). simpl. split; [exact Eq|].
+    assert (Fc : flag K_codegen o = true).
+    { unfold flag. rewrite <- (Agree K_codegen) by discriminate. symmetry. exact J4. }
+    rewrite Fc in LK4. simpl in LK4. apply Nat.eqb_eq in LK4. exact LK4.
+  - simpl. split; [exact Eq | exact I].
 Qed.
 
 (* ---------- the property on the model ---------- *)
 Theorem fresh_from g fails L s ops :
-  cfg_ok g -> Inv L s -> legal g fails (Some L) s ops ->
+  cfg_ok g -> Inv g L s -> legal g fails (Some L) s ops ->
   forall s1 a r, In (s1, a, Some r) (run g fails s ops) -> out_ok fails s1 r.
 Proof.
   intros G. revert s. induction ops as [|a ops IH]; intros s I Hl s1 a1 r Hin; simpl in *; [contradiction|].
@@ -217,58 +348,96 @@ Proof.
   - eapply IH; eassumption.
 Qed.
 
-Theorem fresh g fails f0 o0 v0 ops :
+Lemma inv_init g f0 o0 v0 n0 l0 : flag K_mtime_check o0 = true -> Inv g (get K_library_folders o0) (State f0 o0 v0 n0 l0 None).
+Proof. intros F. repeat split; simpl; auto. Qed.
+
+(* writes "newer" in the sense of the coded comparison *)
+Theorem fresh_operator g fails f0 o0 v0 n0 l0 ops :
   cfg_ok g -> flag K_mtime_check o0 = true ->
-  legal g fails (Some (get K_library_folders o0)) (State f0 o0 v0 None) ops ->
-  forall s1 a r, In (s1, a, Some r) (run g fails (State f0 o0 v0 None) ops) -> out_ok fails s1 r.
-Proof.
-  intros G F. apply fresh_from; [exact G|]. repeat split; simpl; auto.
-Qed.
+  legal g fails (Some (get K_library_folders o0)) (State f0 o0 v0 n0 l0 None) ops ->
+  forall s1 a r, In (s1, a, Some r) (run g fails (State f0 o0 v0 n0 l0 None) ops) -> out_ok fails s1 r.
+Proof. intros G F. apply fresh_from; [exact G | apply inv_init; exact F]. Qed.
+
+(* writes strictly later than the cache file, as the property grants *)
+Theorem fresh g fails f0 o0 v0 n0 l0 ops :
+  cfg_ok g -> flag K_mtime_check o0 = true ->
+  legal_gt g fails (Some (get K_library_folders o0)) (State f0 o0 v0 n0 l0 None) ops ->
+  forall s1 a r, In (s1, a, Some r) (run g fails (State f0 o0 v0 n0 l0 None) ops) -> out_ok fails s1 r.
+Proof. intros G F H. apply fresh_operator; [exact G | exact F | apply legal_gt_legal; exact H]. Qed.
 
 (* the invariant itself, in every reachable state *)
 Theorem inv_reachable g fails L s ops :
-  Inv L s -> legal g fails (Some L) s ops -> Inv L (final g fails s ops).
+  Inv g L s -> legal g fails (Some L) s ops -> Inv g L (final g fails s ops).
 Proof.
   revert s. induction ops as [|a ops IH]; intros s I Hl; simpl in *; [exact I|].
   destruct Hl as [Hl1 Hl2]. apply IH; [apply step_inv; assumption | exact Hl2].
 Qed.
 
-(* ---------- the carving hypothesis is needed: library_folders ---------- *)
-Definition g_now : cfg := Cfg true [K_library_folders] true.
+(* ---------- the hypotheses are needed ---------- *)
+Definition g_now : cfg := Cfg true [K_library_folders] true.     (* today's table: > *)
+Definition g_ge : cfg := Cfg false [K_library_folders] true.     (* the same with >= *)
 Definition o_lib (l : list nat) : opts :=
   [(K_library_folders, l); (K_verbose, [0]); (2, [1]); (K_mtime_check, [1]); (K_cache, [1]);
    (K_codegen, [0]); (K_expand_mx, [0])].
+Definition o_cg (l : list nat) : opts := set K_codegen [1] (set K_cache [0] (o_lib l)).
 Definition f_two : fs := [((0, 0), (10%Z, 1)); ((1, 0), (10%Z, 2)); ((2, 0), (10%Z, 3))].
-Definition h_lib : list op := [Transfer 20%Z; SetOptions (o_lib [2]); Transfer 30%Z].
+Definition s_two : state := State f_two (o_lib [1]) 1 0 None None.
+Definition nofail : cres -> bool := fun _ => false.
 
-Theorem fresh_refuted :
-  exists s1 now r,
-    legal g_now (fun _ => false) None (State f_two (o_lib [1]) 1 None) h_lib /\
-    In (s1, Transfer now, Some (Served true r)) (run g_now (fun _ => false) (State f_two (o_lib [1]) 1 None) h_lib) /\
-    fst (fst r) <> fst (fst (ideal s1)).
+Definition stale (g : cfg) (s0 : state) (h : list op) : Prop :=
+  exists s1 now r b, In (s1, Transfer now, Some (Served true r b)) (run g nofail s0 h) /\
+                     fst (fst r) <> fst (fst (ideal s1)).
+
+Ltac stale_at tac := eexists _, _, _, _; split; [vm_compute; tac; left; reflexivity | vm_compute; discriminate].
+
+(* library_folders changes: legal in every other respect, stale sources served *)
+Definition h_lib : list op := [Transfer 20%Z; SetOptions (o_lib [2]); Transfer 30%Z].
+Theorem fresh_refuted : legal g_now nofail None s_two h_lib /\ stale g_now s_two h_lib.
+Proof. split; [vm_compute; repeat split | stale_at ltac:(right; right)]. Qed.
+
+(* deleting / renaming a source in use (outside the property's letter): the stale cache is served *)
+Definition h_del : list op := [Transfer 20%Z; Delete (1, 0); Transfer 30%Z].
+Definition h_ren : list op := [Transfer 20%Z; Rename (2, 0) (0, 1); Transfer 30%Z].
+Theorem delete_refuted : stale g_now s_two h_del /\ stale g_now s_two h_ren.
+Proof. split; stale_at ltac:(right; right). Qed.
+
+(* a write whose mtime EQUALS the cache file's: breaks the statement under >, is covered under >= *)
+Definition h_eq : list op := [Transfer 20%Z; Edit (0, 0) 20%Z 4; Transfer 30%Z].
+Theorem equal_mtime_refuted :
+  stale g_now s_two h_eq /\ legal g_ge nofail (Some [1]) s_two h_eq /\ ~ legal g_now nofail (Some [1]) s_two h_eq.
 Proof.
-  eexists _, _, _. split; [|split].
-  - vm_compute. repeat split.
-  - vm_compute. right. right. left. reflexivity.
-  - vm_compute. discriminate.
+  split; [stale_at ltac:(right; right)|]. split; [vm_compute; repeat split|].
+  vm_compute. intros (_ & H & _). discriminate H.
 Qed.
 
-(* non-vacuity: a legal history with an edit, an addition in a library folder, an option change
-   and a version change, all under one library_folders value *)
+(* non-vacuity: a legal history with an edit, an addition in a library folder, a deletion and a
+   rename outside the folders in use, an option change and a version change; then codegen mode with
+   a platform change *)
 Definition h_ok : list op :=
   [Transfer 20%Z; Edit (0, 0) 21%Z 4; Transfer 30%Z; Add (1, 1) 31%Z 5; Transfer 40%Z;
-   SetOptions (set 9 [1] (o_lib [1])); Transfer 50%Z; SetVersion 2; Transfer 60%Z; Transfer 70%Z].
+   Delete (2, 0); Rename (3, 0) (2, 1);
+   SetOptions (set 9 [1] (o_lib [1])); Transfer 50%Z; SetVersion 2; Transfer 60%Z; Transfer 70%Z;
+   SetOptions (o_cg [1]); Transfer 80%Z; Transfer 90%Z; SetOS 1; Transfer 100%Z; Transfer 110%Z].
+
+Definition srcs4 : list (path * nat) := [((0,0),4); ((1,0),2); ((1,1),5)].
+Definition o_a := set K_expand_mx [1] (o_lib [1]).
+Definition o_b := set K_expand_mx [1] (set 9 [1] (o_lib [1])).
 
 Lemma legal_example :
   cfg_ok g_now /\ flag K_mtime_check (o_lib [1]) = true /\
-  legal g_now (fun _ => false) (Some (get K_library_folders (o_lib [1]))) (State f_two (o_lib [1]) 1 None) h_ok /\
-  map (fun e => snd e) (run g_now (fun _ => false) (State f_two (o_lib [1]) 1 None) h_ok) =
-  [Some (Served false ([((0,0),1); ((1,0),2)], set K_expand_mx [1] (o_lib [1]), 1)); None;
-   Some (Served false ([((0,0),4); ((1,0),2)], set K_expand_mx [1] (o_lib [1]), 1)); None;
-   Some (Served false ([((0,0),4); ((1,0),2); ((1,1),5)], set K_expand_mx [1] (o_lib [1]), 1)); None;
-   Some (Served false ([((0,0),4); ((1,0),2); ((1,1),5)], set K_expand_mx [1] (set 9 [1] (o_lib [1])), 1)); None;
-   Some (Served false ([((0,0),4); ((1,0),2); ((1,1),5)], set K_expand_mx [1] (set 9 [1] (o_lib [1])), 2));
-   Some (Served true ([((0,0),4); ((1,0),2); ((1,1),5)], set K_expand_mx [1] (set 9 [1] (o_lib [1])), 2))].
+  legal_gt g_now nofail (Some (get K_library_folders (o_lib [1]))) s_two h_ok /\
+  filter (fun x => match x with Some _ => true | None => false end)
+         (map (fun e => snd e) (run g_now nofail s_two h_ok)) =
+  [Some (Served false ([((0,0),1); ((1,0),2)], o_a, 1) None);
+   Some (Served false ([((0,0),4); ((1,0),2)], o_a, 1) None);
+   Some (Served false (srcs4, o_a, 1) None);
+   Some (Served false (srcs4, o_b, 1) None);
+   Some (Served false (srcs4, o_b, 2) None);
+   Some (Served true (srcs4, o_b, 2) None);
+   Some (Served false (srcs4, o_cg [1], 2) None);
+   Some (Served true (srcs4, o_cg [1], 2) (Some 0));      (* the shared libraries, this platform *)
+   Some (Served false (srcs4, o_cg [1], 2) None);         (* other platform: library_os check *)
+   Some (Served true (srcs4, o_cg [1], 2) (Some 1))].
 Proof.
   split; [apply cfg_okb_ok; reflexivity|]. split; [reflexivity|]. split.
   - vm_compute. repeat split.
